@@ -497,6 +497,14 @@ func newStruct(fields []field) reflect.Value {
 	return reflect.New(t)
 }
 
+// stale is what pre-populated fields hold before an injection.
+var stale = &prod{Label: -777}
+
+func isStale(v interface{}) bool {
+	p, ok := v.(*prod)
+	return ok && p == stale
+}
+
 // ---- driver ----------------------------------------------------------------------------------
 
 type side struct {
@@ -595,6 +603,17 @@ func execute(p *program, s *side, st *runStats) {
 				}
 			}
 			obj := newStruct(sp.Fields)
+			// every third injection goes into an object whose required dependency fields already
+			// hold something (an object that was injected by another container before, or is
+			// reused): injection yields the container's own instance all the same
+			pre := i%3 == 1
+			if pre {
+				for fi, f := range sp.Fields {
+					if f.Tag == app.DependencyTagName && !f.Opt {
+						obj.Elem().Field(fi).Set(reflect.ValueOf(stale))
+					}
+				}
+			}
 			err := s.inject(obj.Interface())
 			w.emit(evInj, int32(i), b2i(err == nil), 0)
 			if st != nil {
@@ -612,8 +631,11 @@ func execute(p *program, s *side, st *runStats) {
 					continue
 				}
 				set := !isNilValue(fv)
-				if set && f.Tag == app.DependencyTagName {
+				if set && f.Tag == app.DependencyTagName && !isStale(fv) {
 					w.seen(f.Key, fv)
+				}
+				if err == nil && pre && isStale(fv) && w.impl {
+					w.viol("stale-field-kept", "step %d InjectTo succeeded but the required field %q still holds what the object held before the call instead of the container's instance", i, f.Key)
 				}
 				if err == nil {
 					// the statement does not say what a failed injection leaves behind; fields of
